@@ -126,7 +126,7 @@ func qres(q h.Query) string {
 	if q.Err != "" {
 		return q.Err
 	}
-	if q.Kind == "data" {
+	if q.Kind == "data" || q.Kind == "meta" {
 		return "Ok"
 	}
 	switch len(q.IDs) {
